@@ -31,6 +31,12 @@ theorem C12_discovery_chain (b : Backend) (hp : Addressable b.principal) (hh : A
     discover (serve b) = some (b.principal, b.principal, b.homeSet, b.collections) := by
   simp [discover, serve, readHref_encode _ hp, readHref_encode _ hh, mapM_readHref_encode _ hc]
 
+/-- … and the last link of the chain, the objects of a collection (`QueryCalendar`, `MultiGetCalendar`, a Depth 1
+    listing — one `response/href` per object, read with `resp.Path()`): every list of addressable object paths comes
+    back as it is, in order -/
+theorem C12_object_paths_round_trip (objects : List Bytes) (h : ∀ o ∈ objects, Addressable o) :
+    (objects.map hrefEncode).mapM readHref = some objects := mapM_readHref_encode objects h
+
 /-- why the redirect must be escaped (the defect repaired by 1b8f3d2): handed over raw, the principal `/w?x/` is
     announced as a reference whose path is `/w` -/
 theorem C12_raw_location_loses_the_principal :
